@@ -454,6 +454,135 @@ func runC05(b *mon.B) {
 			}
 		}
 	}
+	// ---- proxy mode: every packet is preceded by a PROXY line ending in CR LF NUL; the same
+	// independence of segmentation holds, in particular for a cut between the LF and the NUL
+	for k := 0; k < b.N(30, 800); k++ {
+		caseNo++
+		sc := schedules[(k+b.Index)%len(schedules)]
+		pk := c05Stream(r, false)
+		if len(pk) > 4 {
+			pk = pk[:4]
+		}
+		if !b.Want(caseNo) {
+			continue
+		}
+		b.Eval(1)
+		var stream []byte
+		var bounds, nulAt []int
+		for _, p := range pk {
+			bounds = append(bounds, len(stream))
+			line := proxyLine()
+			nulAt = append(nulAt, len(stream)+len(line)-1)
+			stream = append(stream, line...)
+			bounds = append(bounds, len(stream))
+			stream = append(stream, p.wire(secret)...)
+		}
+		var chunks [][]byte
+		name := sc.Name
+		if k%3 == 0 {
+			// cut exactly between the LF and the NUL of every line
+			name = "cut-before-each-NUL"
+			prev := 0
+			for _, at := range nulAt {
+				chunks = append(chunks, stream[prev:at])
+				prev = at
+			}
+			chunks = append(chunks, stream[prev:])
+		} else {
+			chunks = sc.Cut(r, stream, bounds)
+		}
+		b.Class("server/proxy-mode/%s", name)
+		pw := simnet.New()
+		pw.SetKeepLog(false)
+		ptp := tap.New(pw)
+		ph := &c05Handler{}
+		psrv := kit.Start(pw, ptp, tap.NewLogger(false), &tap.Static{Secret: secret, Handler: ptp.Wrap("initial", ph)}, tq.SetUseProxy(true))
+		c := psrv.L.Dial(simnet.RemoteFor(caseNo))
+		c.Feed(chunks...)
+		c.EOF()
+		if err := c.WaitClosed(); err != nil {
+			b.Inconclusive("proxy case %d: %v", caseNo, err)
+			psrv.Stop()
+			continue
+		}
+		held := ph.take()
+		ok := len(held) == len(pk)
+		for i := 0; ok && i < len(pk); i++ {
+			ok = bytes.Equal(held[i], pk[i].Clear)
+		}
+		if !ok {
+			b.Violate(caseNo, "C05/server/proxy-mode/packets-lost-or-changed/"+name, fmt.Sprintf("proxy mode, schedule %q: %d packets sent (each behind a PROXY line), %d delivered intact", name, len(pk), len(held)),
+				map[string]interface{}{"schedule": name, "packets": len(pk), "chunks": len(chunks)})
+		} else {
+			b.Count("proxy_mode_streams_delivered_intact", 1)
+		}
+		psrv.Stop()
+	}
+	// ---- connections that are open at the same time each have their own stream, also right after
+	// other connections were refused (oversize header) or ended in the middle of a packet: what is
+	// written on one is delivered on that one
+	for k := 0; k < b.N(6, 120); k++ {
+		caseNo++
+		if !b.Want(caseNo) {
+			continue
+		}
+		b.Eval(1)
+		psrv := kit.StartLib(secret, &c05Handler{})
+		psrv.Net.SetKeepLog(false)
+		prelude := r.PickS("oversize-header", "truncated-packet", "none")
+		b.Class("server/parallel-connections-after-%s", prelude)
+		switch prelude {
+		case "oversize-header":
+			a := psrv.L.Dial(simnet.RemoteFor(900000 + k))
+			a.Feed(rfc8907.Header{Major: 0xc, Type: 1, Seq: 1, Session: r.U32(), Length: 70000}.Encode())
+			a.Stall()
+			a.WaitClosed()
+		case "truncated-packet":
+			a := psrv.L.Dial(simnet.RemoteFor(900000 + k))
+			w := pktSpec{H: rfc8907.Header{Major: 0xc, Type: 1, Seq: 1, Session: r.U32()}, Clear: c05Body(r, 1, 40, false)}.wire(secret)
+			a.Feed(w[:20])
+			a.EOF()
+			a.WaitClosed()
+		}
+		nc := 2 + r.Intn(3)
+		conns := make([]*simnet.Conn, nc)
+		for i := range conns {
+			conns[i] = psrv.L.Dial(simnet.RemoteFor(910000 + k*8 + i))
+			conns[i].WaitQuiescent()
+		}
+		bad := ""
+		for step := 0; step < 3*nc && bad == ""; step++ {
+			i := r.Intn(nc)
+			typ := 1 + r.Intn(3)
+			body := c05Body(r, typ, 10+r.Intn(200), false)
+			h := rfc8907.Header{Major: 0xc, Type: typ, Seq: 1, Session: r.U32()}
+			before := psrv.Tap.Count()
+			conns[i].Feed(pktSpec{H: h, Clear: body}.wire(secret))
+			if _, err := conns[i].WaitQuiescent(); err != nil {
+				b.Inconclusive("parallel connections: %v", err)
+				bad = "-"
+				break
+			}
+			invs := psrv.Tap.Since(before)
+			raws, _ := conns[i].TakePackets()
+			switch {
+			case len(invs) != 1:
+				bad = fmt.Sprintf("a packet written on connection %d of %d open ones led to %d deliveries", i, nc, len(invs))
+			case invs[0].Conn != conns[i].ID:
+				bad = fmt.Sprintf("a packet written on connection %d was delivered on another connection", i)
+			case !bytes.Equal(invs[0].Body, body) || uint32(invs[0].Header.SessionID) != h.Session:
+				bad = fmt.Sprintf("the packet delivered on connection %d is not the one written on it", i)
+			case len(raws) != 1:
+				bad = fmt.Sprintf("connection %d got %d reply packets for its request", i, len(raws))
+			}
+		}
+		if bad != "" && bad != "-" {
+			b.Violate(caseNo, "C05/server/streams-of-parallel-connections-mixed", bad, map[string]interface{}{"prelude": prelude, "connections": nc})
+		} else if bad == "" {
+			b.Count("parallel_connection_rounds_intact", 1)
+		}
+		psrv.Stop()
+	}
 	// ---- oversize headers, client as the receiver: Client.Send must come back with an error as soon
 	// as the 12 header bytes are in, without another read and without allocating the announced size
 	// (announcements stop at 64 MiB here: a client that does allocate must not take the machine down)
